@@ -22,7 +22,8 @@ CHECKS = {
                 note="Trusted: float64 oracle formulas; <= 14 units; integer/dyadic grids; 1e-4 relative tolerance."),
     "C08": dict(engine="E3 universe x solver configurations", design="§4 C08",
                 technique="configuration enumeration (3 solver configurations incl. injected SolverError) x bounded "
-                          "input universe, solver identity observed by a spy, DP oracle",
+                          "input universe, solver identity observed by a spy, DP oracle; fault enumeration (CBC "
+                          "failing at every solver call of a gamma computation)",
                 text="Three solver configurations x best/soft x enumerated continua; a spy proves which solver ran; "
                      "results validated structurally and against the exact optimum, hence equal across back-ends.",
                 note="Trusted: sys.modules masking and the injected SolverError reproduce 'cylp missing / failing'."),
